@@ -516,7 +516,7 @@ type vf18Env struct {
 }
 
 func (x *vf18Env) fresh(seedMode bool) {
-	x.book = NewAddrBook("/root/scratch/w_C18/build/C18sub/never-written-addrbook.json", true)
+	x.book = NewAddrBook("/nonexistent/vf18/never-written-addrbook.json", true)
 	x.book.SetLogger(vf18Logger())
 	x.r = NewReactor(x.book, &ReactorConfig{SeedMode: seedMode})
 	x.r.SetLogger(vf18Logger())
